@@ -21,6 +21,7 @@ from dataclasses import dataclass
 from pathlib import Path
 from typing import TYPE_CHECKING
 
+from src.core.linter_utils import matches_ignore_patterns
 from src.core.types import Violation
 from src.orchestrator.language_detector import detect_language
 
@@ -71,7 +72,10 @@ class ViolationGenerator:
         """
         raw_violations = self._collect_violations(storage, rule_id, config)
         deduplicated = self._deduplicator.deduplicate_violations(raw_violations)
-        pattern_filtered = self._filter_ignored(deduplicated, config.ignore_patterns)
+        project_root = getattr(ignore_ctx.shared_parser, "project_root", None)
+        pattern_filtered = self._filter_ignored(
+            deduplicated, config.ignore_patterns, project_root
+        )
         inline_filtered = self._filter_inline_ignored(pattern_filtered, ignore_ctx.inline_ignore)
 
         # Apply shared ignore directive filtering for block and line directives
@@ -132,7 +136,10 @@ class ViolationGenerator:
         return len(blocks) >= min_occurrences
 
     def _filter_ignored(
-        self, violations: list[Violation], ignore_patterns: list[str]
+        self,
+        violations: list[Violation],
+        ignore_patterns: list[str],
+        project_root: Path | None = None,
     ) -> list[Violation]:
         """Filter violations based on ignore patterns.
 
@@ -148,11 +155,13 @@ class ViolationGenerator:
 
         filtered = []
         for violation in violations:
-            if not self._is_ignored(violation.file_path, ignore_patterns):
+            if not self._is_ignored(violation.file_path, ignore_patterns, project_root):
                 filtered.append(violation)
         return filtered
 
-    def _is_ignored(self, file_path: str, ignore_patterns: list[str]) -> bool:
+    def _is_ignored(
+        self, file_path: str, ignore_patterns: list[str], project_root: Path | None = None
+    ) -> bool:
         """Check if file path matches any ignore pattern.
 
         Args:
@@ -162,8 +171,9 @@ class ViolationGenerator:
         Returns:
             True if file should be ignored
         """
-        path_str = str(Path(file_path))
-        return any(pattern in path_str for pattern in ignore_patterns)
+        # glob patterns as documented (tests/, *.min.js, */generated/*), judged on the path
+        # inside the project rather than as a substring of the absolute path
+        return matches_ignore_patterns(file_path, ignore_patterns, project_root)
 
     def _filter_inline_ignored(
         self, violations: list[Violation], inline_ignore: InlineIgnoreParser
